@@ -29,7 +29,7 @@ def run_entry(e):
             compile(open(p).read(), p, 'exec')
         except SyntaxError as ex:
             return e, 'BADENTRY', 'edit does not compile: %s' % ex
-        r = subprocess.run([os.path.join(VERIF, 'check'), prop, '--repo', os.path.join(d, 'repo'), '--no-evidence'],
+        r = subprocess.run([os.path.join(VERIF, 'check'), prop, '--quick', '--repo', os.path.join(d, 'repo'), '--no-evidence'],
                            cwd=VERIF, capture_output=True, text=True)
         want = 1 if kind == 'break' else 0
         ok = r.returncode == want
@@ -37,6 +37,14 @@ def run_entry(e):
         return e, 'ok' if ok else 'FAIL', 'exit %d (want %d) %s' % (r.returncode, want, '' if ok else ' | '.join(tail)[:400])
     finally:
         shutil.rmtree(d, ignore_errors=True)
+
+
+def run_for(prop, repo='/repo', jobs=12):
+    """-> (results [(entry, status, msg)]) for the catalogue entries of one property, against a scratch copy of `repo`"""
+    os.environ['VERIF_REPO'] = repo
+    entries = [e for e in ENTRIES if e[0] == prop]
+    with ThreadPoolExecutor(jobs) as ex:
+        return list(ex.map(run_entry, entries))
 
 
 def main():
